@@ -138,9 +138,9 @@ Proof.
   inversion H; subst.
   assert (Hfu : (Z.max 1 (rtb_max cfg - rtb_steps (rtb_reset st)) < Z.of_nat (mpc_fuel cfg))%Z \/
                 rtb_cont (rtb_reset st) = false).
-  { left. unfold mpc_fuel. cbn [rtb_steps rtb_reset]. lia. }
+  { left. unfold mpc_fuel. cbn [rtb_steps rtb_reset rtb_init]. lia. }
   destruct (mpc_loop_ends _ _ _ _ _ _ _ _ _ _ _ _ _ _ _ Hfu E) as (I1 & I2 & I3 & _).
-  cbn [rtb_steps rtb_reset] in I2. destruct (I3 eq_refl) as [I5 _].
+  cbn [rtb_steps rtb_reset rtb_init] in I2. destruct (I3 eq_refl) as [I5 _].
   split; [exact I1|]. split; [exact I5|lia].
 Qed.
 
